@@ -46,4 +46,8 @@ theorem finding_cog14_not_well_defined :
   unfold Cog14.L0.WellDefined
   norm_num
 
+/-- non-vacuity of the universal statement: the class defaults with α = -3/2, β = 2 lie in the range -/
+example : ∃ p : Cog14.P, 0 < p.Gamma ∧ Advised p.alpha p.beta ∧ Geom123 p.geometry :=
+  ⟨⟨40, 0, -3 / 2, 0, 2, 0, 0, 7 / 5, 3, 0, 1 / 10, 9 / 5⟩, by norm_num, by norm_num [Advised], Or.inr (Or.inr rfl)⟩
+
 end EPV.C20
